@@ -56,7 +56,7 @@ def kw_for(rng, method, allow_bad=True):
     return kw
 
 
-CONTENT_CLASSES = ["plain", "multiline", "crlf", "cr", "bom", "nofinalnl", "empty", "multibyte", "large", "not_utf8"]
+CONTENT_CLASSES = ["plain", "multiline", "crlf", "cr", "bom", "nofinalnl", "empty", "multibyte", "large", "not_utf8", "exact"]
 HUGE_CLASSES = ["huge_crlf", "huge_mixed", "boundary"]      # > 64 Ki characters: block-wise readers meet their block edges
 
 
@@ -78,6 +78,13 @@ def make_content(rng, names, cls, tier):
         unit = t + "\n" + "".join(rng.choice(["é", "λ", "日本", "😀", "ab1 ", "k=2 "]) for _ in range(20))
         target = rng.choice([9000, 17000]) if tier == "thorough" else rng.choice([600, 9000])
         t = (unit * (target // max(1, len(unit)) + 1))[:target]
+    if cls == "exact":
+        # the whole file is one match of one of the run's patterns (short, > 8 Ki or > 64 Ki characters)
+        cands = [nm for nm in names if nm in corpus.EXACT]
+        if cands:
+            n = rng.choice([3, 12, 40, 40, 5000, 8191, 8192, 8193, 9000, 9000] if tier == "thorough" or rng.random() < 0.5
+                           else [3, 12, 40, 200, 9000])
+            return corpus.EXACT[rng.choice(cands)](n).encode("utf-8")
     if cls == "boundary":
         # size coincidences: byte / character length exactly at (or one off) a typical block size, a multi-byte character
         # straddling that offset, and a witness that ends exactly at the end of the text
